@@ -17,18 +17,18 @@ Notation frame := (frame P iset).
 Notation input_text := (input_text P iset).
 Notation untouched := (untouched P iset).
 
-Lemma first_code_index_firstn fso : forall (sts : list spiece) seen k,
-  first_code_index fso seen sts = Some k -> first_code_index fso seen (firstn k sts) = None.
+Lemma first_code_index_firstn : forall (sts : list spiece) seen k,
+  first_code_index seen sts = Some k -> first_code_index seen (firstn k sts) = None.
 Proof.
   induction sts as [|s rest IH]; intros seen k H; [discriminate|].
   cbn [first_code_index] in H.
   destruct (is_noncode_piece s) eqn:E1.
-  - destruct (first_code_index fso seen rest) as [k'|] eqn:E; [|discriminate].
+  - destruct (first_code_index seen rest) as [k'|] eqn:E; [|discriminate].
     inversion H; subst k. cbn [firstn first_code_index]. rewrite E1, (IH _ _ E). reflexivity.
   - destruct (is_string_piece s) eqn:E2.
-    + destruct (fso && seen) eqn:E3; [inversion H; reflexivity|].
-      destruct (first_code_index fso true rest) as [k'|] eqn:E; [|discriminate].
-      inversion H; subst k. cbn [firstn first_code_index]. rewrite E1, E2, E3, (IH _ _ E). reflexivity.
+    + destruct seen eqn:E3; [inversion H; reflexivity|].
+      destruct (first_code_index true rest) as [k'|] eqn:E; [|discriminate].
+      inversion H; subst k. cbn [firstn first_code_index]. rewrite E1, E2, (IH _ _ E). reflexivity.
     + inversion H. reflexivity.
 Qed.
 
@@ -40,13 +40,13 @@ Proof.
 Qed.
 
 (* the text of the maximal leading run of comment / blank / string-literal statements of the
-   first block (all leading string statements, or only the first with the F9 repair) *)
-Definition is_prologue_text (fso : bool) (bs : list block) (pro : str) : Prop :=
+   first block (comments, blank lines and at most one leading string statement: F9) *)
+Definition is_prologue_text (bs : list block) (pro : str) : Prop :=
   match bs with
   | BOther inp _ :: _ =>
       exists sts, statements (pb_nodes inp) (pb_text inp) = Some sts /\
-      exists k, pro = ptexts (firstn k sts) /\ first_code_index fso false (firstn k sts) = None /\
-                (first_code_index fso false sts = Some k \/ (first_code_index fso false sts = None /\ k = length sts))
+      exists k, pro = ptexts (firstn k sts) /\ first_code_index false (firstn k sts) = None /\
+                (first_code_index false sts = Some k \/ (first_code_index false sts = None /\ k = length sts))
   | _ => pro = []
   end.
 
@@ -66,34 +66,36 @@ Proof. reflexivity. Qed.
 Lemma pretty_other_cons inp o (bs : list block) : pretty R (BOther inp o :: bs) = o ++ pretty R bs.
 Proof. reflexivity. Qed.
 
-Theorem insert_frame fso (bs bs' : list block) :
+Theorem insert_frame (bs bs' : list block) :
   Forall untouched bs ->
-  insert_new_import_block empty_set fso bs = Some bs' ->
-  exists pro rest o',
+  insert_new_import_block empty_set bs = Some bs' ->
+  exists pro term rest o',
     input_text bs = pro ++ rest /\
-    pretty R bs' = pro ++ R empty_set ++ [c_nl] ++ o' /\
+    pretty R bs' = pro ++ term ++ R empty_set ++ [c_nl] ++ o' /\
     (exists brest, frame brest rest o') /\
-    is_prologue_text fso bs pro.
+    is_prologue_text bs pro /\
+    (term = [] \/ (term = [c_nl] /\ needs_terminator pro = true)).
 Proof.
   intros Hu H. unfold insert_new_import_block, insert_new_blocks_after_comments in H.
   destruct bs as [|b0 rest]; [discriminate|].
   destruct b0 as [inp set|inp out].
   - (* the file starts with an import block: position 0 *)
-    inversion H; subst bs'. exists [], (input_text (BImports inp set :: rest)), (pretty R (BImports inp set :: rest)).
+    inversion H; subst bs'. exists [], [], (input_text (BImports inp set :: rest)), (pretty R (BImports inp set :: rest)).
     split; [reflexivity|]. split.
     + rewrite pretty_news_cons. reflexivity.
-    + split; [|reflexivity]. eexists. apply frame_of_untouched. exact Hu.
+    + split; [eexists; apply frame_of_untouched; exact Hu|]. split; [reflexivity|left; reflexivity].
   - destruct (statements (pb_nodes inp) (pb_text inp)) as [sts|] eqn:Est; [|discriminate].
     pose proof (split_lossless _ _ _ _ Est) as Hl.
     inversion Hu as [|? ? Hu0 Hur]; subst. cbn in Hu0. subst out.
-    destruct (first_code_index fso false sts) as [idx|] eqn:Ei.
+    destruct (first_code_index false sts) as [idx|] eqn:Ei.
     + destruct idx as [|idx'].
       * (* first statement is code: position 0 *)
         inversion H; subst bs'.
-        exists [], (input_text (BOther inp (btext inp) :: rest)), (pretty R (BOther inp (btext inp) :: rest)).
+        exists [], [], (input_text (BOther inp (btext inp) :: rest)), (pretty R (BOther inp (btext inp) :: rest)).
         split; [reflexivity|]. split.
         -- rewrite pretty_news_cons. reflexivity.
         -- split; [eexists; apply frame_of_untouched; exact Hu|].
+           split; [|left; reflexivity].
            cbn [is_prologue_text]. exists sts. split; [exact Est|]. exists 0.
            split; [reflexivity|]. split; [reflexivity|]. left. exact Ei.
       * (* the first block is split between prologue and code *)
@@ -101,7 +103,7 @@ Proof.
         destruct (other_of (skipn (S idx') sts)) as [b2|] eqn:E2; [|discriminate].
         inversion H; subst bs'.
         destruct (other_of_spec _ _ E1) as [U1 T1]. destruct (other_of_spec _ _ E2) as [U2 T2].
-        exists (ptexts (firstn (S idx') sts)), (ptexts (skipn (S idx') sts) ++ input_text rest), (pretty R (b2 :: rest)).
+        exists (ptexts (firstn (S idx') sts)), [], (ptexts (skipn (S idx') sts) ++ input_text rest), (pretty R (b2 :: rest)).
         split.
         { unfold BlocksProofs.input_text at 1. cbn [map concat block_input].
           fold (input_text rest). rewrite app_assoc. f_equal.
@@ -114,16 +116,22 @@ Proof.
         { exists (b2 :: rest). rewrite <- T2.
           change (btext (block_input b2) ++ input_text rest) with (input_text (b2 :: rest)).
           apply frame_of_untouched. constructor; assumption. }
+        split; [|left; reflexivity].
         cbn [is_prologue_text]. exists sts. split; [exact Est|]. exists (S idx').
         split; [reflexivity|]. split; [apply first_code_index_firstn; exact Ei|]. left. exact Ei.
-    + (* the whole first block is prologue: right after it *)
-      inversion H; subst bs'.
-      exists (btext inp), (input_text rest), (pretty R rest).
-      split; [reflexivity|]. split.
-      { cbn [app]. rewrite pretty_other_cons, pretty_news_cons. reflexivity. }
-      split; [eexists; apply frame_of_untouched; exact Hur|].
-      cbn [is_prologue_text]. exists sts. split; [exact Est|]. exists (length sts).
-      rewrite firstn_all. split; [unfold btext; symmetry; exact Hl|]. split; [exact Ei|]. right. auto.
+    + (* the whole first block is prologue: right after it, after terminating its last line if needed *)
+      assert (Hpro : is_prologue_text (BOther inp (btext inp) :: rest) (btext inp)).
+      { cbn [is_prologue_text]. exists sts. split; [exact Est|]. exists (length sts).
+        rewrite firstn_all. split; [unfold btext; symmetry; exact Hl|]. split; [exact Ei|]. right. auto. }
+      destruct (needs_terminator (btext inp)) eqn:Ent; inversion H; subst bs'.
+      * exists (btext inp), [c_nl], (input_text rest), (pretty R rest).
+        split; [reflexivity|]. split.
+        { cbn [app]. rewrite pretty_other_cons. unfold newline_block. rewrite pretty_other_cons, pretty_news_cons. reflexivity. }
+        split; [eexists; apply frame_of_untouched; exact Hur|]. split; [exact Hpro|]. right. auto.
+      * exists (btext inp), [], (input_text rest), (pretty R rest).
+        split; [reflexivity|]. split.
+        { cbn [app]. rewrite pretty_other_cons, pretty_news_cons. reflexivity. }
+        split; [eexists; apply frame_of_untouched; exact Hur|]. split; [exact Hpro|]. left. reflexivity.
 Qed.
 
 End WithR.
